@@ -56,7 +56,14 @@ fn rand_arts(rng: &mut impl Rng) -> Vec<Value> {
     let mut v = vec![];
     for p in PATHS {
         if rng.gen_bool(0.5) {
-            v.push(json!({"p": p, "d": if rng.gen_bool(0.6) {"h1"} else {"h2"}}));
+            let d = match rng.gen_range(0..20) {
+                0..=10 => "h1",
+                11..=16 => "h2",
+                17 => "s512:h1",
+                18 => "both:h1",
+                _ => "mix:h1:h2",
+            };
+            v.push(json!({"p": p, "d": d}));
         }
     }
     v
